@@ -6,6 +6,7 @@
 (* state.  Arguments are drawn from the live identifiers of the current document.                 *)
 (*                                                                                                *)
 (*   doc    the document (objects, trailer, max_id, pending bookmark targets)                     *)
+(*   aux    Editing!Aux(doc): reachable set, page sequence, content ... (a function of doc)     *)
 (*   gh     ghost: issued ids, content each page must show                                        *)
 (*   n      number of calls made                                                                  *)
 (*   fails  clauses the LAST step violated (tags of Editing!Judge)                                *)
@@ -20,27 +21,30 @@ CONSTANTS Dev,          \* switches of the impl-shaped layer (Editing!DevAsIs / 
           NewObjs(_),   \* NewObjs(doc): objects offered to add_object / set_object
           MaxDepth
 
-VARIABLES doc, gh, n, fails, hist
+VARIABLES doc, aux, gh, n, fails, hist
 
-svars == <<doc, gh, n, fails, hist>>
+svars == <<doc, aux, gh, n, fails, hist>>
 
 Step(c) ==
-    /\ n < MaxDepth /\ c.op \in Ops /\ Pre(doc, gh, c)
+    /\ n < MaxDepth /\ c.op \in Ops /\ Pre(doc, aux, gh, c)
     /\ LET r == Impl(doc, c, Dev)
-           j == Judge(doc, gh, c, r.res, r.doc)
+           B == Aux(r.doc)
+           j == Judge(doc, aux, gh, c, r.res, r.doc, B)
        IN /\ doc' = r.doc
+          /\ aux' = B
           /\ gh' = j.gh
           /\ fails' = j.tags
           /\ hist' = Append(hist, [c |-> c, res |-> r.res, v |-> j.tags])
     /\ n' = n + 1
 
 Streams(d)   == {id \in DOMAIN d.objs : d.objs[id].k = "stream"}
-AnnotIds(d)  == UNION {LET a == Get(d.objs[p].v, "Annots") IN IF a.k = "arr" THEN RangeOf(RefIds(a.v)) ELSE {} : p \in PageSet(d)}
-Deletable(d) == DOMAIN d.objs \ ProtectedIds(d)
+AnnotIds(d)  == UNION {LET a == Get(d.objs[p].v, "Annots") IN IF a.k = "arr" THEN RangeOf(RefIds(a.v)) ELSE {} : p \in RangeOf(aux.pp)}
+Deletable(d) == DOMAIN d.objs \ aux.prot
+Pages_       == RangeOf(aux.pp)
 
 NewObjectId == Step(Call("NewObjectId"))
 AddObject   == \E o \in NewObjs(doc) : Step([Call("AddObject") EXCEPT !.o = o])
-Replace     == \E id \in (DOMAIN doc.objs \cup gh.issued) \ (ProtectedIds(doc) \cup Streams(doc)), o \in NewObjs(doc) :
+Replace     == \E id \in (DOMAIN doc.objs \cup gh.issued) \ (aux.prot \cup Streams(doc)), o \in NewObjs(doc) :
                   Step([Call("Replace") EXCEPT !.id = id, !.o = o])
 DeleteObject == \E id \in Deletable(doc) : Step([Call("DeleteObject") EXCEPT !.id = id])
 RemoveAnnot == \E id \in AnnotIds(doc) : Step([Call("RemoveAnnot") EXCEPT !.id = id])
@@ -49,12 +53,12 @@ DeletePages == \E nums \in NumSeqs : Step([Call("DeletePages") EXCEPT !.nums = n
 Renumber    == Step(Call("Renumber"))
 Compress    == Step(Call("Compress"))
 Decompress  == Step(Call("Decompress"))
-AddPageContents   == \E p \in PageSet(doc), b \in ByteStrings : Step([Call("AddPageContents") EXCEPT !.id = p, !.b = b])
-ChangePageContent == \E p \in PageSet(doc), b \in ByteStrings : Step([Call("ChangePageContent") EXCEPT !.id = p, !.b = b])
+AddPageContents   == \E p \in Pages_, b \in ByteStrings : Step([Call("AddPageContents") EXCEPT !.id = p, !.b = b])
+ChangePageContent == \E p \in Pages_, b \in ByteStrings : Step([Call("ChangePageContent") EXCEPT !.id = p, !.b = b])
 ChangeContentStream == \E id \in Streams(doc), b \in ByteStrings : Step([Call("ChangeContentStream") EXCEPT !.id = id, !.b = b])
-GetOrCreateResources == \E p \in PageSet(doc) : Step([Call("GetOrCreateResources") EXCEPT !.id = p])
-AddXObject  == \E p \in PageSet(doc) : Step([Call("AddXObject") EXCEPT !.id = p, !.name = "X1", !.x = MaxOf(Streams(doc))])
-AddGraphicsState == \E p \in PageSet(doc) : Step([Call("AddGraphicsState") EXCEPT !.id = p, !.name = "G1", !.x = MaxOf(DOMAIN doc.objs)])
+GetOrCreateResources == \E p \in Pages_ : Step([Call("GetOrCreateResources") EXCEPT !.id = p])
+AddXObject  == \E p \in Pages_ : Step([Call("AddXObject") EXCEPT !.id = p, !.name = "X1", !.x = MaxOf(Streams(doc))])
+AddGraphicsState == \E p \in Pages_ : Step([Call("AddGraphicsState") EXCEPT !.id = p, !.name = "G1", !.x = MaxOf(DOMAIN doc.objs)])
 BuildOutline == Step(Call("BuildOutline"))
 Save        == \E fmt \in {"table", "stream"} : Step([Call("Save") EXCEPT !.fmt = fmt])
 SaveLoad    == \E fmt \in {"table"} : Step([Call("SaveLoad") EXCEPT !.fmt = fmt])
